@@ -9,12 +9,21 @@ def vm_arms(F, R):
         return None
     ms = [m for m in H.walk(H.body_of(f)) if m.get("k") == "match" and not H.is_try(m)
           and "Opcode" in m["scrut"].get("ty", "")]
+    # the dispatch is the outermost of them (an arm shared by several opcodes may look at the opcode again)
+    inner = {id(x) for m in ms for a in m["arms"] for x in H.walk(a["body"]) if x.get("k") == "match"}
+    ms = [m for m in ms if id(m) not in inner]
     if not R.anchor("VM::run: match on the decoded opcode", len(ms) == 1):
         return None
     arms = {}
+    lid = H.local_id(H.strip(ms[0]["scrut"]))
     for a in ms[0]["arms"]:
-        for v in H.pat_variants(a["pat"]):
-            arms[H.last(v)] = {"body": a["body"], "line": a.get("line"), "pat": a["pat"]}
+        vs = [v for v in H.pat_variants(a["pat"]) if v and v != "*"]
+        for v in vs:
+            body = a["body"]
+            if len(vs) > 1 and lid is not None:
+                # `A | B => { .. }`: the arm as it runs for this opcode
+                body = H.split_tuple_lets(H.specialise(body, lid, H.last(v)))
+            arms[H.last(v)] = {"body": body, "line": a.get("line"), "pat": a["pat"]}
     return arms
 
 
@@ -177,8 +186,8 @@ def operator_dispatchers(F, R):
         a = arms.get(op)
         if a is None:
             continue
-        for c in H.walk(a["body"]):
-            if c.get("k") in ("call", "mcall") and c.get("callee") in F.fns and any(x.get("k") == "closure" for x in c.get("args", [])):
+        for c in H.walk(H.unlet(a["body"])):
+            if c.get("k") in ("call", "mcall") and c.get("callee") in F.fns and any(H.strip(x).get("k") == "closure" for x in c.get("args", [])):
                 out[role] = c["callee"]
                 break
     g = F.fn(out["binary"]) if out["binary"] else None
